@@ -217,7 +217,7 @@ impl Schema {
         for col in columns {
             let split = parse_field_path(col.as_ref())?;
             let first = split[0].as_str();
-            if let Some(field) = self.field(first) {
+            if let Some(field) = self.top_level_field(first) {
                 let split_refs: Vec<&str> = split[1..].iter().map(|s| s.as_str()).collect();
                 let projected_field = field.project(&split_refs)?;
                 if let Some(candidate_field) = candidates.iter_mut().find(|f| f.name == first) {
@@ -319,7 +319,7 @@ impl Schema {
     fn do_intersection(&self, other: &Self, ignore_types: bool) -> Result<Self> {
         let mut candidates: Vec<Field> = vec![];
         for field in other.fields.iter() {
-            if let Some(candidate_field) = self.field(&field.name) {
+            if let Some(candidate_field) = self.top_level_field(&field.name) {
                 candidates.push(candidate_field.do_intersection(field, ignore_types)?);
             }
         }
@@ -395,7 +395,7 @@ impl Schema {
                 });
             }
 
-            if let Some(self_field) = self.field(&field.name) {
+            if let Some(self_field) = self.top_level_field(&field.name) {
                 new_fields.push(self_field.project_by_field(field, on_type_mismatch)?);
             } else if matches!(on_missing, OnMissing::Error) {
                 return Err(Error::Schema {
@@ -418,7 +418,7 @@ impl Schema {
         })?;
         let mut fields = vec![];
         for field in self.fields.iter() {
-            if let Some(other_field) = other.field(&field.name) {
+            if let Some(other_field) = other.top_level_field(&field.name) {
                 if field.data_type().is_struct() {
                     if let Some(f) = field.exclude(other_field) {
                         fields.push(f)
@@ -432,6 +432,11 @@ impl Schema {
             fields,
             metadata: self.metadata.clone(),
         })
+    }
+
+    /// Get a top-level field by its exact name (the name is not parsed as a path).
+    fn top_level_field(&self, name: &str) -> Option<&Field> {
+        self.fields.iter().find(|f| f.name == name)
     }
 
     /// Get a field by its path. Return `None` if the field does not exist.
@@ -597,7 +602,7 @@ impl Schema {
 
         let mut merged_fields: Vec<Field> = vec![];
         for mut field in self.fields.iter().cloned() {
-            if let Some(other_field) = other.field(&field.name) {
+            if let Some(other_field) = other.top_level_field(&field.name) {
                 // if both are struct types, then merge the fields
                 field.merge(other_field)?;
             }
